@@ -144,23 +144,19 @@ private theorem proj_foldl_restore (keep : List Nat) (o : Nat) : ∀ (objs : Lis
 private theorem proj_enter (s : St) (objs : List Nat) (hnd : objs.Nodup) (o : Nat) :
     proj (enter s objs) o = if o ∈ objs then pushPO (proj s o) else proj s o := by
   unfold enter
-  rw [foldl_keep backUpDef (fun t => proj t o) (fun t d => proj_backUpDef t d o)]
   exact proj_foldl_backUp o objs s hnd
 
 private theorem defs_enter (s : St) (objs : List Nat) : (enter s objs).defs = s.defs := by
   unfold enter
-  rw [foldl_keep backUpDef (fun t => t.defs) (fun t d => defs_backUpDef t d)]
   exact foldl_keep backUpObj (fun t => t.defs) (fun t a => defs_backUpObj t a) objs s
 
 private theorem proj_exit (s : St) (objs keep : List Nat) (hnd : objs.Nodup) (o : Nat) :
     proj (exit s objs keep) o = if o ∈ objs then popPO keep (s.defs o) (proj s o) else proj s o := by
   unfold exit
-  rw [foldl_keep (restoreDef keep) (fun t => proj t o) (fun t d => proj_restoreDef keep t d o)]
   exact proj_foldl_restore keep o objs s hnd
 
 private theorem defs_exit (s : St) (objs keep : List Nat) : (exit s objs keep).defs = s.defs := by
   unfold exit
-  rw [foldl_keep (restoreDef keep) (fun t => t.defs) (fun t d => defs_restoreDef keep t d)]
   exact foldl_keep (restoreObj keep) (fun t => t.defs) (fun t a => defs_restoreObj keep t a) objs s
 
 /-- every scope of the program is opened on a duplicate-free list of objects (a subtree: C01) -/
@@ -511,5 +507,165 @@ theorem serial_fresh_monotone (s : St) (o : Nat) (hs : SerInv s) :
   refine ⟨by simp [deepcopyObj, upd], ?_⟩
   intro o' ho'; simp [deepcopyObj, upd]; exact hs.1 o' ho'
 
+
+
+/-! ### definition-level `assigned` flags and their back-up chain -/
+
+private theorem mem_dedupAdj : ∀ (l : List Nat) (x : Nat), x ∈ dedupAdj l → x ∈ l
+  | [], _, h => by simp [dedupAdj] at h
+  | [a], x, h => by simpa [dedupAdj] using h
+  | a :: b :: rest, x, h => by
+    unfold dedupAdj at h
+    split at h
+    · exact List.mem_cons_of_mem _ (mem_dedupAdj (b :: rest) x h)
+    · rcases List.mem_cons.mp h with e | h'
+      · simp [e]
+      · exact List.mem_cons_of_mem _ (mem_dedupAdj (b :: rest) x h')
+
+private theorem dedupAdj_lt : ∀ (l : List Nat), l.Pairwise (fun a b => a ≤ b) → (dedupAdj l).Pairwise (fun a b => a < b)
+  | [], _ => by simp [dedupAdj]
+  | [a], _ => by simp [dedupAdj]
+  | a :: b :: rest, h => by
+    have h' := List.pairwise_cons.mp h
+    unfold dedupAdj
+    split
+    · exact dedupAdj_lt (b :: rest) h'.2
+    · rename_i hne
+      rw [List.pairwise_cons]
+      refine ⟨?_, dedupAdj_lt (b :: rest) h'.2⟩
+      intro z hz
+      have hz' := mem_dedupAdj (b :: rest) z hz
+      have hab : a ≤ b := h'.1 b (by simp)
+      have hbz : b ≤ z := by
+        rcases List.mem_cons.mp hz' with e | hr
+        · omega
+        · exact (List.pairwise_cons.mp h'.2).1 z hr
+      omega
+
+theorem allDefs_nodup (s : St) (objs : List Nat) : (allDefs s objs).Nodup := by
+  unfold allDefs
+  have hs : ((objs.flatMap s.defs).mergeSort (fun a b => decide (a ≤ b))).Pairwise (fun a b => a ≤ b) := by
+    have := List.pairwise_mergeSort (le := fun (a b : Nat) => decide (a ≤ b))
+      (by intro a b c h1 h2; simp at *; omega) (by intro a b; simp; omega) (objs.flatMap s.defs)
+    exact this.imp (by intro a b h; simpa using h)
+  exact (dedupAdj_lt _ hs).imp (by intro a b h; omega)
+
+/-- per-definition slice -/
+def projD (s : St) (d : Nat) : Nat × List Nat := (s.dassigned d, s.dbackup d)
+
+private theorem projD_backUpDefs (d : Nat) (D : List Nat) (s : St) :
+    projD (backUpDefs s D) d = if d ∈ D then (s.dassigned d, s.dassigned d :: s.dbackup d) else projD s d := by
+  by_cases h : d ∈ D <;> simp [projD, backUpDefs, h]
+
+private theorem projD_restoreDefs (keep : List Nat) (d : Nat) (D : List Nat) (s : St) :
+    projD (restoreDefs keep s D) d =
+      if d ∈ D then
+        (match s.dbackup d with
+          | [] => projD s d
+          | x :: rest => (if d ∈ keep then s.dassigned d else x, rest))
+      else projD s d := by
+  by_cases h : d ∈ D
+  · cases hb : s.dbackup d with
+    | nil => by_cases hk : d ∈ keep <;> simp [projD, restoreDefs, h, hb, hk]
+    | cons x r => by_cases hk : d ∈ keep <;> simp [projD, restoreDefs, h, hb, hk]
+  · simp [projD, restoreDefs, h]
+
+private theorem projD_backUpObj (s : St) (o d : Nat) : projD (backUpObj s o) d = projD s d := rfl
+private theorem dbackup_restoreObj (keep : List Nat) (s : St) (o d : Nat) :
+    (restoreObj keep s o).dbackup d = s.dbackup d := by
+  unfold restoreObj; split <;> rfl
+private theorem dassigned_restoreObj_notkeep (keep : List Nat) (s : St) (o d : Nat) (hd : d ∉ keep) :
+    (restoreObj keep s o).dassigned d = s.dassigned d := by
+  unfold restoreObj; split
+  · rfl
+  · rename_i fr rest hb
+    have : d ∉ keptChanged s keep o fr := by
+      intro h; unfold keptChanged at h; split at h
+      · simp only [List.mem_filter] at h; exact hd h.1.1
+      · cases h
+    simp [this]
+
+/-- **definition-level stack discipline**: every program (any nesting) leaves each definition's back-up
+chain as it found it -/
+theorem defs_lifo : ∀ (p : Prog), WF p → ∀ (s : St) (d : Nat), (run p s).dbackup d = s.dbackup d
+  | .skip, _, _, _ => rfl
+  | .set a x v, _, s, d => by simp only [run, setP]; split <;> rfl
+  | .cacheSet _ _ _, _, _, _ => rfl
+  | .gridSet a g, _, s, d => by simp only [run, setGrid]; split <;> rfl
+  | .seq a b, hw, s, d => by simp only [run]; rw [defs_lifo b hw.2, defs_lifo a hw.1]
+  | .scope objs keep body, hw, s, d => by
+    have hdefs : (run body (enter s objs)).defs = s.defs := by
+      rw [(nested_lifo_stacks body hw.2 (enter s objs) 0).1, defs_enter]
+    simp only [run]
+    -- exit
+    have e1 : (exit (run body (enter s objs)) objs keep).dbackup d =
+        (projD (exit (run body (enter s objs)) objs keep) d).2 := rfl
+    rw [e1]
+    unfold exit
+    have hD : allDefs (run body (enter s objs)) objs = allDefs s objs := by unfold allDefs; rw [hdefs]
+    rw [hD, projD_restoreDefs keep d]
+    have hmid : ∀ t, (objs.foldl (restoreObj keep) t).dbackup d = t.dbackup d := by
+      intro t
+      exact foldl_keep (restoreObj keep) (fun u => u.dbackup d) (fun u a => dbackup_restoreObj keep u a d) objs t
+    have hbody := defs_lifo body hw.2 (enter s objs) d
+    have hent : projD (enter s objs) d =
+        if d ∈ allDefs s objs then (s.dassigned d, s.dassigned d :: s.dbackup d) else projD s d := by
+      unfold enter
+      have hD0 : allDefs s objs = allDefs s objs := rfl
+      rw [projD_backUpDefs d]
+      have h1 : (objs.foldl backUpObj s).dassigned d = s.dassigned d :=
+        foldl_keep backUpObj (fun u => u.dassigned d) (fun u a => rfl) objs s
+      have h2 : (objs.foldl backUpObj s).dbackup d = s.dbackup d :=
+        foldl_keep backUpObj (fun u => u.dbackup d) (fun u a => rfl) objs s
+      simp [projD, h1, h2]
+    by_cases hd : d ∈ allDefs s objs
+    · simp only [hd, if_true] at hent ⊢
+      have : (objs.foldl (restoreObj keep) (run body (enter s objs))).dbackup d = s.dassigned d :: s.dbackup d := by
+        rw [hmid, hbody]; exact congrArg Prod.snd hent
+      rw [this]
+    · simp only [hd, if_false] at hent ⊢
+      show (objs.foldl (restoreObj keep) (run body (enter s objs))).dbackup d = s.dbackup d
+      rw [hmid, hbody]; exact congrArg Prod.snd hent
+
+/-- **definition-level flags are restored LIFO**: after a scope, the `assigned` flag of every definition
+of the scope's objects that is NOT in the keep-set is exactly its entry value (kept definitions keep
+whatever the body and the kept-value logic left). -/
+theorem def_assigned_restored (objs keep : List Nat) (body : Prog) (hnd : objs.Nodup) (hw : WF body)
+    (s : St) (d : Nat) (hd : d ∈ allDefs s objs) (hk : d ∉ keep) :
+    (run (.scope objs keep body) s).dassigned d = s.dassigned d := by
+  have hdefs : (run body (enter s objs)).defs = s.defs := by
+    rw [(nested_lifo_stacks body hw (enter s objs) 0).1, defs_enter]
+  simp only [run]
+  have e1 : (exit (run body (enter s objs)) objs keep).dassigned d =
+      (projD (exit (run body (enter s objs)) objs keep) d).1 := rfl
+  rw [e1]
+  unfold exit
+  have hD : allDefs (run body (enter s objs)) objs = allDefs s objs := by unfold allDefs; rw [hdefs]
+  rw [hD, projD_restoreDefs keep d]
+  simp only [hd, if_true]
+  have hmid : (objs.foldl (restoreObj keep) (run body (enter s objs))).dbackup d = (run body (enter s objs)).dbackup d :=
+    foldl_keep (restoreObj keep) (fun u => u.dbackup d) (fun u a => dbackup_restoreObj keep u a d) objs _
+  have hbody := defs_lifo body hw (enter s objs) d
+  have hent : (enter s objs).dbackup d = s.dassigned d :: s.dbackup d := by
+    have : projD (enter s objs) d = (s.dassigned d, s.dassigned d :: s.dbackup d) := by
+      unfold enter
+      rw [projD_backUpDefs d]
+      have h1 : (objs.foldl backUpObj s).dassigned d = s.dassigned d :=
+        foldl_keep backUpObj (fun u => u.dassigned d) (fun u a => rfl) objs s
+      have h2 : (objs.foldl backUpObj s).dbackup d = s.dbackup d :=
+        foldl_keep backUpObj (fun u => u.dbackup d) (fun u a => rfl) objs s
+      simp [hd, h1, h2]
+    exact congrArg Prod.snd this
+  rw [hmid, hbody, hent]
+  simp [hk]
+
+/-- **descendants**: a scope opened on an object restores every object beneath it -- the scope's list is
+the object followed by its descendants (the subtree, duplicate-free by C01); for each descendant every
+non-kept parameter is back at its entry value and every kept one has its end-of-body value. -/
+theorem retain_restores_descendants (root : Nat) (desc keep : List Nat) (body : Prog)
+    (hnd : (root :: desc).Nodup) (hw : WF body) (s : St) (o : Nat) (ho : o ∈ desc) (x : Nat) :
+    (run (.scope (root :: desc) keep body) s).vals o x =
+      if x ∈ keep ∧ x ∈ s.defs o then (run body (enter s (root :: desc))).vals o x else s.vals o x :=
+  retain_restores (root :: desc) keep body hnd hw s o (List.mem_cons_of_mem _ ho) x
 
 end ArmiVerif.Params
